@@ -21,6 +21,11 @@ CLAIMED['C15'] = dict(
    text='Proof with a recorded known finding. For every list in the shape that loading and every earlier call establish (placed elements in order, new ones behind), one call keeps the placed prefix in order with doubled uids and gives the new elements the uid directly behind the last placed one (C15_placed_prefix_stable); the writer\'s comparison of any two placed elements is unchanged (C15_writer_order_of_placed_unchanged) and a new element sorts directly behind the last placed element of its kind (C15_new_directly_after_last_of_kind); k consecutive calls scale uids by 2^k while they fit in u32 (C15_k_calls_scale_uids). The unbounded statement is refuted: with any placed element 32 calls cannot all succeed (C15_thirty_two_calls_overflow, witness by vm_compute) - that is the known finding uid-doubling-overflow. Tie: model vs A2lFile::sort_new_items on API-built modules incl. uids close to 2^32 and up to 64 consecutive calls; placement oracle on the written text.',
    note='Guard of the positive theorems: 2*uid+1 < 2^32 for every uid of the module at each call; its failure is the known finding (classified by the same predicate on the observed uids). Release-mode wrap-around is modelled (debug=false) but only the debug build is run in the quick tier. Crate-private comments cannot be created through the API; merge is represented by pushes of uid-0 elements with line>0.',
    design='8 C15')
+CLAIMED['C12'] = dict(
+   technique='Coq proof on primitive binary64 floats: range per conversion kind for all floats; float classification equals exact rational classification on the full finite grid (vm_compute + forallb_forall); bit-exact model/implementation differential',
+   text='Proof. checker.rs get_datatype_limits / calc_compu_method_limits / check_limits_valid and the tolerance-free TYPEDEF_MEASUREMENT comparison are modelled on Coq primitive floats (bit-exact IEEE binary64). For all floats: identity/table kinds give the raw range, LINEAR maps both endpoints and swaps them for a negative slope, the linear RAT_FUNC case is inverted and ordered, FORM/general RAT_FUNC give (-MAX, MAX). On the property\'s grid (11 data types x 14 slopes of both signs x 9 offsets x 4 limit placements x tolerant/tolerance-free comparison; and the RAT_FUNC b,c,f grid; identity kinds; unevaluated kinds) the float decision is proved equal to the decision of exact rational arithmetic (Q) whenever values are finite and limits clearly placed: a complete finite check inside the kernel, lifted with forallb_forall, 10008 + 15908 non-vacuous points. Tie: the model is evaluated by coqc/vm_compute on the same bit patterns as the implementation (calc via cfg hook; error decision via public check() on modules built per object kind, which also exercises which data type governs) and compared bit for bit; an independent exact-Fraction oracle in Python decides the clearly placed cases.',
+   note='Outside the grid the real-number meaning is not proved (no general rounding-error theorem): partial. Print Assumptions lists only kernel float/int63 primitives; FloatAxioms are not used. Trusted: rustc float literal parsing (compared through correspondence), text->f64 parsing of the A2L loader (C01/C02).',
+   design='8 C12')
 REASON_TODO = 'not yet implemented in this round (model/theorems planned in DESIGN.md section 8); no claim is made'
 
 def main():
